@@ -11,8 +11,9 @@
 (* datetime,array-of-str} x name shape {plain `limit`, kebab `page-size`,  *)
 (* camel `pageSize`, keyword `class`, `url`, `params`, `headers`, `body`,  *)
 (* `id`} x declared at path level / operation level; body in {none, JSON   *)
-(* model, JSON primitive, JSON array, form, multipart, octet, two content  *)
-(* types}.  The full product is far too large, so the family is a          *)
+(* model, JSON primitive (str/int/bool), JSON array of models, JSON        *)
+(* free-form object, form, multipart, octet, two content types}; the JSON  *)
+(* bodies of stratum B are optional for (a+b+r) % 4 = 0.  The full product is far too large, so the family is a          *)
 (* deterministic STRATIFIED selection (no randomness):                     *)
 (*                                                                         *)
 (*  A  one parameter, no body: (loc/req, shape, type, level) with          *)
@@ -50,15 +51,18 @@ TypeSeq == <<"str", "int", "bool", "enum", "date", "datetime", "array">>
 LevelSeq == <<"op", "path">>
 MethodSeq == <<"GET", "POST", "PUT", "PATCH", "DELETE">>
 BodyMethods == <<"POST", "PUT", "PATCH">>
-BodySeq == <<"none", "json_model", "json_prim", "json_array", "form", "multipart", "octet", "two">>
-NA == 7   NB == 9   NC == 7   NK == 8
+BodySeq == <<"none", "json_model", "json_prim", "json_array", "json_map", "form", "multipart", "octet", "two">>
+PrimSeq == <<"str", "int", "bool">>
+NA == 7   NB == 9   NC == 7   NK == 9
 
 Valid(a, c) == ~(LocReq[a].in = "path" /\ TypeSeq[c] = "array")
 TypeFor(a, c) == IF Valid(a, c) THEN TypeSeq[c] ELSE "str"
 P(a, b, c, lv) == MkParam(LocReq[a].in, LocReq[a].req, TypeFor(a, c), ShapeSeq[b], LevelSeq[lv])
 \* the merged order of the loader: path-level declarations first
 Ord(ps) == SelectSeq(ps, LAMBDA p : p.level = "path") \o SelectSeq(ps, LAMBDA p : p.level = "op")
-Body(k, required) == [kind |-> BodySeq[k], required |-> required]
+Body(k, required) == [kind |-> BodySeq[k], required |-> required, ptype |-> ""]
+\* the JSON primitive body rotates over string / integer / boolean
+WithPrim(b, n) == IF b.kind = "json_prim" THEN [b EXCEPT !.ptype = PrimSeq[(n % 3) + 1]] ELSE b
 MethodFor(k, n) == IF k = 1 THEN MethodSeq[(n % 5) + 1] ELSE BodyMethods[(n % 3) + 1]
 S(n) == ToString(n)
 SameSpot(a1, b1, a2, b2) == LocReq[a1].in = LocReq[a2].in /\ b1 = b2
@@ -74,7 +78,7 @@ FamA(full) ==
 FamB(rots) ==
   {LET a == t[1]  b == t[2]  k == t[3]  r == t[4]  c == ((a + b + k + 2 * r) % NC) + 1  lv == ((a + k + r) % 2) + 1 IN
    MkOp("b" \o S(a) \o "x" \o S(b) \o "x" \o S(k) \o "x" \o S(r), MethodFor(k, a + b + k + r), <<P(a, b, c, lv)>>,
-        Body(k, ~(k \in 2..4 /\ (a + b + r) % 4 = 0))) :
+        WithPrim(Body(k, ~(k \in 2..5 /\ (a + b + r) % 4 = 0)), a + r)) :
      t \in (1..NA) \X (1..NB) \X (2..NK) \X (0..(rots - 1))}
 
 PairIdx(a, b) == (a - 1) * NB + b
@@ -84,7 +88,7 @@ FamC(mod, rots) ==
        l1 == ((a1 + b1 + r) % 2) + 1  l2 == ((a2 + b2 + a1) % 2) + 1
        k == ((((a1 + a2 + b1 + b2) \div 4) + 3 * r) % NK) + 1 IN
    MkOp("c" \o S(a1) \o "x" \o S(b1) \o "x" \o S(a2) \o "x" \o S(b2) \o "x" \o S(r), MethodFor(k, a1 + b2 + r),
-        Ord(<<P(a1, b1, c1, l1), P(a2, b2, c2, l2)>>), Body(k, TRUE)) :
+        Ord(<<P(a1, b1, c1, l1), P(a2, b2, c2, l2)>>), WithPrim(Body(k, TRUE), a1 + b2)) :
      t \in {u \in (1..NA) \X (1..NB) \X (1..NA) \X (1..NB) \X (0..(rots - 1)) :
               /\ PairIdx(u[1], u[2]) < PairIdx(u[3], u[4])
               /\ ~SameSpot(u[1], u[2], u[3], u[4])
@@ -98,7 +102,7 @@ FamD(mod, rots) ==
        l(a, b) == ((a + b + r) % 2) + 1
        k == ((a1 + b1 + b2 + 5 * r) % NK) + 1 IN
    MkOp("d" \o S(a1) \o S(a2) \o S(a3) \o "x" \o S(b1) \o "x" \o S(b2) \o "x" \o S(r), MethodFor(k, a2 + b1 + r),
-        Ord(<<P(a1, b1, c(a1, b1, 1), l(a1, b1)), P(a2, b2, c(a2, b2, 2), l(a2, b2)), P(a3, b3, c(a3, b3, 3), l(a3, b3))>>), Body(k, TRUE)) :
+        Ord(<<P(a1, b1, c(a1, b1, 1), l(a1, b1)), P(a2, b2, c(a2, b2, 2), l(a2, b2)), P(a3, b3, c(a3, b3, 3), l(a3, b3))>>), WithPrim(Body(k, TRUE), a2 + b1)) :
      t \in {u \in Triples \X (1..NB) \X (1..NB) \X (0..(rots - 1)) :
               LET b3 == ((u[2] + 2 * u[3] + u[1][1]) % NB) + 1 IN
               /\ Apart(<<u[2], u[3], b3>>)
@@ -118,7 +122,7 @@ FamF(rots) ==
        l(i) == ((a[i] + bb[i] + r) % 2) + 1
        k == ((a[1] + b1 + b2 + 3 * r) % NK) + 1 IN
    MkOp("f" \o S(a[1]) \o S(a[2]) \o S(a[3]) \o S(a[4]) \o "x" \o S(b1) \o "x" \o S(b2) \o "x" \o S(r), MethodFor(k, a[3] + b2 + r),
-        Ord([i \in 1..4 |-> P(a[i], bb[i], c(i), l(i))]), Body(k, TRUE)) :
+        Ord([i \in 1..4 |-> P(a[i], bb[i], c(i), l(i))]), WithPrim(Body(k, TRUE), a[2] + b1)) :
      t \in {u \in Quads \X (1..NB) \X (1..NB) \X (0..(rots - 1)) :
               LET b3 == ((u[2] + 2 * u[3] + u[1][1]) % NB) + 1  b4 == ((2 * u[2] + u[3] + u[1][2] + u[4]) % NB) + 1
                   bb == <<u[2], u[3], b3, b4>> IN
